@@ -72,6 +72,14 @@ theorem str_bytes (cfg : Cfg) (L : Labels) (p : Placed) (raw : String) (term : O
   unfold lineBytes
   simp only [hs]
 
+/-- the terminator of `.cstr` / `.asciiz` is appended always and exactly once - also when the string itself already
+    ends with the terminator value (`.cstr "abc\\0"` is five bytes) -/
+theorem cstr_terminator_always (cfg : Cfg) (L : Labels) (p : Placed) (raw : String) (t : Nat)
+    (hs : p.line.stmt = .str raw (some t)) :
+    ∃ bs, lineBytes cfg L p = .ok bs ∧ bs.length = (unescape raw.toList).length + 1 ∧ bs.getLast? = some (t % 256) ∧
+      bs.dropLast = (unescape raw.toList).map (· % 256) := by
+  refine ⟨_, str_bytes cfg L p raw (some t) hs, ?_, ?_, ?_⟩ <;> simp
+
 /-- escape processing: text without a backslash is taken character by character -/
 theorem unescape_plain (cs : List Char) (h : ∀ c ∈ cs, c ≠ '\\') : unescape cs = cs.map Char.toNat := by
   induction cs with
